@@ -166,9 +166,22 @@ def mods():
 # A. contours
 def repo_fill(M, cont, shape):
     """mask from contour with the repository's own routine (fmt_tdms.event_mask.MaskColumn)"""
-    mc = object.__new__(M["event_mask"].MaskColumn)
-    mc.contour = [np.asarray(cont)]
-    mc._img_shape_cache = tuple(shape)
+    # through the public constructor, with a stand-in dataset (contour column, image column, config)
+    class _Contours(list):
+        identifier = "verif"
+
+    class _Images:
+        def __init__(self, shp):
+            self.shape = (1,) + tuple(shp)
+
+        def __len__(self):
+            return 1
+
+    class _DS(dict):
+        config = {"imaging": {}}
+
+    mc = M["event_mask"].MaskColumn(_DS(contour=_Contours([np.asarray(cont)]),
+                                        image=_Images(shape)))
     return mc[0]
 
 
